@@ -328,6 +328,58 @@ theorem describes_zip (o : BitOp) {env : Env} {a b r : List Bit} {w na nb : Nat}
           BitVec.getLsbD_ofNat]
         simp [hi']
 
+theorem testBit_bytesRev (k : Nat) : ∀ (n i : Nat), i < 8 * k →
+    (bytesRev k n).testBit i = n.testBit (8 * (k - 1 - i / 8) + i % 8) := by
+  induction k with
+  | zero => intro n i hi; omega
+  | succ k ih =>
+    intro n i hi
+    simp only [bytesRev]
+    have e : (256 : Nat) ^ k = 2 ^ (8 * k) := by
+      have : (256 : Nat) = 2 ^ 8 := by decide
+      rw [this, ← Nat.pow_mul]
+    have hlt : bytesRev k (n / 256) < 2 ^ (8 * k) := e ▸ bytesRev_lt k (n / 256)
+    rw [e, Nat.mul_comm, Nat.testBit_two_pow_mul_add _ hlt]
+    by_cases h : i < 8 * k
+    · rw [if_pos h, ih _ _ h, show (256 : Nat) = 2 ^ 8 by decide, Nat.testBit_div_two_pow]
+      congr 1
+      have : i / 8 < k := by omega
+      omega
+    · rw [if_neg h, show (256 : Nat) = 2 ^ 8 by decide, Nat.testBit_mod_two_pow]
+      have h1 : i / 8 = k := by omega
+      have h2 : i - 8 * k < 8 := by omega
+      simp only [h2, decide_true, Bool.true_and]
+      congr 1
+      rw [h1]
+      omega
+
+theorem describes_reverse {env : Env} {b : List Bit} {wa na : Nat} (D : Describes env b wa na) (h8 : wa % 8 = 0) :
+    Describes env (revBytes b) wa (bytesRev (wa / 8) (na % 2 ^ wa)) where
+  len := by simp [revBytes, D.len]
+  pos := D.pos
+  lt := by
+    have := bytesRev_lt (wa / 8) (na % 2 ^ wa)
+    have e : 256 ^ (wa / 8) = 2 ^ wa := by
+      have : (256 : Nat) = 2 ^ 8 := by decide
+      rw [this, ← Nat.pow_mul]
+      congr 1; omega
+    omega
+  bit := by
+    intro i hi'
+    have hidx : 8 * (wa / 8 - 1 - i / 8) + i % 8 < wa := by
+      have : i / 8 < wa / 8 := by omega
+      omega
+    simp only [revBytes, List.getElem?_map, D.len, List.getElem?_range hi', Option.map_some, Option.bind_some]
+    rw [List.getD_eq_getElem?_getD]
+    have h1 := D.bit _ hidx
+    cases hb : b[8 * (wa / 8 - 1 - i / 8) + i % 8]? with
+    | none => simp [hb] at h1
+    | some x =>
+      simp only [hb, Option.bind_some] at h1
+      simp only [Option.getD_some, h1]
+      rw [testBit_bytesRev _ _ _ (by omega), Nat.testBit_mod_two_pow]
+      simp [hidx]
+
 theorem describes_lshr {env : Env} {a : List Bit} {wa na : Nat} (D : Describes env a wa na) (k : Nat) :
     Describes env (a.drop k ++ List.replicate (min k a.length) (Bit.c false)) wa (BitVec.ofNat wa na >>> k).toNat where
   len := by simp [D.len]; omega
@@ -544,6 +596,19 @@ theorem bitsOf_args_bv (env : Env) (op : Op) (args : List Expr) (r : List Bit)
         cases v with
         | err => simp [applyOp] at hv
         | bool c => simp [applyOp] at hv
+        | bv wa na => exact ⟨wa, na, rfl⟩
+  · rename_i b heq
+    cases args with
+    | nil => simp at heq
+    | cons a rest =>
+      cases rest with
+      | cons _ _ => simp at heq
+      | nil =>
+        refine unary a rfl ?_
+        intro v hv
+        cases v with
+        | err => simp [applyOp, valReverse] at hv
+        | bool c => simp [applyOp, valReverse] at hv
         | bv wa na => exact ⟨wa, na, rfl⟩
   · rename_i b0 r1 rest heq
     refine nary (fun _ x y => x &&& y) ?_ ?_
@@ -776,6 +841,18 @@ theorem bitsOf_sound (env : Env) (op : Op) (args : List Expr) (r : List Bit)
     refine ⟨wa, _, ?_, describes_not Da⟩
     rw [eval_app]
     simp [evalList, hea, applyOp, bvUn, Da.pos]
+  · -- reverse
+    rename_i b heq
+    obtain ⟨a, wa, na, rfl, hea, Da⟩ := one b heq
+    split at h
+    · rename_i h8
+      simp only [Option.some.injEq] at h
+      subst h
+      rw [Da.len] at h8
+      refine ⟨wa, _, ?_, describes_reverse Da h8⟩
+      rw [eval_app]
+      simp [evalList, hea, applyOp, valReverse, h8, Da.pos]
+    · simp at h
   · rename_i b0 r1 rest heq
     exact nary_sound opAnd env .band (fun _ _ _ => rfl) args hall hg b0 r1 rest heq r h
   · rename_i b0 r1 rest heq
